@@ -87,9 +87,12 @@ pub fn observe_tab<S: CmdSet>(line: &str, cursor: usize, cap: usize, prompt: usi
             return obs;
         }
     };
+    // lines of odd length are typed (and the cursor moved) with another command set as the type parameter of those calls;
+    // the Tab itself always names S
+    let other = line.len() % 2 == 1;
     let feed = |s: &mut Sess<S>, bytes: &[u8]| -> Result<(), String> {
         for &b in bytes {
-            s.byte(b).map_err(|e| format!("process_byte failed: {:?}", e))?;
+            if other && b != b'\t' { s.byte_other_set(b) } else { s.byte(b) }.map_err(|e| format!("process_byte failed: {:?}", e))?;
         }
         Ok(())
     };
